@@ -283,12 +283,20 @@ func (p *GleecePipeline) getModels() (definitions.Models, error) {
 		reducedEnums = append(reducedEnums, reduced)
 	}
 
+	// Names are not unique across packages; break ties by package path so that same-named
+	// models always reach the generators in the same order
 	slices.SortFunc(reducedStructs, func(a, b definitions.StructMetadata) int {
-		return strings.Compare(a.Name, b.Name)
+		if byName := strings.Compare(a.Name, b.Name); byName != 0 {
+			return byName
+		}
+		return strings.Compare(a.PkgPath, b.PkgPath)
 	})
 
 	slices.SortFunc(reducedEnums, func(a, b definitions.EnumMetadata) int {
-		return strings.Compare(a.Name, b.Name)
+		if byName := strings.Compare(a.Name, b.Name); byName != 0 {
+			return byName
+		}
+		return strings.Compare(a.PkgPath, b.PkgPath)
 	})
 
 	return definitions.Models{
